@@ -17,7 +17,7 @@ Positions == {"alone", "left", "right", "deepleft", "deepright", "orint", "foral
 
 (* placements *)
 FpCmp == {[feat |-> "fpcmp", role |-> r, op |-> o, order |-> d, pos |-> p, inst |-> i] :
-            r \in {"guard", "invariant"}, o \in RelOps, d \in {"cv", "vc"}, p \in Positions, i \in InstModes}
+            r \in {"guard", "invariant", "invariant_urgent", "invariant_committed"}, o \in RelOps, d \in {"cv", "vc"}, p \in Positions, i \in InstModes}
 FpAssign == {[feat |-> "fpassign", target |-> t, idx |-> k, len |-> n, inst |-> i] :
             t \in {"clock", "double", "hybrid", "intvar"}, n \in 1..3, k \in 1..3, i \in InstModes}
 ClockInit == {[feat |-> "clockinit", where |-> w, val |-> v, inst |-> i] :
@@ -29,7 +29,7 @@ Chan == {[feat |-> "chan", kind |-> k, where |-> w, shape |-> s, inst |-> i] :
 Other == {[feat |-> f] : f \in {"none", "dynamic", "chanprio", "procprio"}}
 
 (* as invariants the type checker only admits  x < c, x <= c  and the mirrored spellings  c < x, c <= x  (i.e. gt/ge written value-first) *)
-Models == {m \in FpCmp : m.role = "guard" \/ (m.op \in {"lt", "le"} /\ m.order = "cv") \/ (m.op \in {"gt", "ge"} /\ m.order = "vc")}
+Models == {m \in FpCmp : (m.role \in {"invariant_urgent", "invariant_committed"} => m.pos \in {"alone", "right"}) /\ (m.role = "guard" \/ (m.op \in {"lt", "le"} /\ m.order = "cv") \/ (m.op \in {"gt", "ge"} /\ m.order = "vc"))}
           \cup {m \in FpAssign : m.idx <= m.len} \cup ClockInit \cup Rate \cup Chan \cup Other
 
 Inst(m) == IF "inst" \in DOMAIN m THEN m.inst # "no" ELSE TRUE
